@@ -397,6 +397,8 @@ class Spec:
             c = deref(c)
             if isinstance(c, ClassV):
                 names.append(c.qual)
+            elif isinstance(c, Builtin):
+                names.append(c.name)
             elif isinstance(c, ZV):
                 # class given as a Type term
                 if isinstance(v, ZV) and is_usort(v.t.sort()):
